@@ -443,6 +443,10 @@ func genTextSpec(r *kernel.Rand, large bool) TextSpec {
 	if large {
 		s.Docs = kernel.Pick(r, []int{1, 1, 2, 3, 8, 40})
 		s.Bytes = kernel.Pick(r, []int{9000, 17000, 17000, 20000, 33000, 36000, 50000, 66000, 82000})
+		if r.Bool(0.08) {
+			// tens of thousands of tiny lines: line numbers of five digits
+			s.Tiny, s.Bytes = true, kernel.Pick(r, []int{30000, 70000, 120000})
+		}
 		if s.Docs > 1 && r.Bool(0.6) {
 			s.Big = r.Intn(s.Docs)
 		}
@@ -517,7 +521,12 @@ func (Prop) RunUnit(env *kernel.Env, unit int) {
 						}
 						c = Corruption{Kind: "truncate", Pos: p}
 					}
-					d := &Data{Format: "json", Text: spec, Corrupt: c, Transport: kernel.Pick(r, jsonTransports)}
+					tps := jsonTransports
+					if spec.Docs == 1 && p < len(strings.TrimRight(text, " \t\r\n")) {
+						// --argjson reads exactly one document: only faults inside it are seen
+						tps = append([]string{"argjson", "argjson"}, jsonTransports...)
+					}
+					d := &Data{Format: "json", Text: spec, Corrupt: c, Transport: kernel.Pick(r, tps)}
 					d.Plan, d.PlanClass = simio.GenPlan(r, len(text), []int{p, p + 1})
 					if !try(d) {
 						break
